@@ -60,6 +60,9 @@ def build_arg(name, td, inputs):
     if k == "str":
         raw = bytes.fromhex(v["str_utf8"]) if isinstance(v, dict) and v.get("str_utf8") else b""
         return raw.decode("utf-8", errors="replace")
+    if k == "text":
+        codes = v.get("text") if isinstance(v, dict) else None
+        return "".join(chr(c % 128) for c in (codes or []))
     if k == "real":
         if isinstance(v, dict) and isinstance(v.get("real"), list):
             return v["real"][0] / v["real"][1]
